@@ -48,3 +48,24 @@ Definition sitem_text (maxlen indent : nat) (it : sitem) : string :=
   end.
 Definition config_text_s (registry : list string) (entries : list csentry) (maxlen indent : nat) : string :=
   join_strs nls (map (sitem_text maxlen indent) (config_sitems registry entries maxlen)).
+
+(* what a reader must obtain (as Model/ConfigText.v: expected_stmts): one binding per SBindS, the value = what repr of the
+   erased tree denotes *)
+Definition sitem_lines (maxlen indent : nat) (it : sitem) : nat := S (count_nl (sitem_text maxlen indent it)).
+Definition sitem_stmts (o : oracle) (it : sitem) (line : nat) : list stmt :=
+  match it with
+  | SBindS key v =>
+      match denote o (erase v) with
+      | Some x => let '(scope, sel, arg) := split_binding_key key in [SBind scope sel arg x line]
+      | None => []
+      end
+  | _ => []
+  end.
+Fixpoint sitems_stmts (o : oracle) (maxlen indent : nat) (items : list sitem) (line : nat) : list stmt :=
+  match items with
+  | [] => []
+  | it :: r => sitem_stmts o it line ++ sitems_stmts o maxlen indent r (line + sitem_lines maxlen indent it)
+  end.
+Definition expected_stmts_s (o : oracle) (registry : list string) (entries : list csentry) (maxlen indent : nat) : list stmt :=
+  sitems_stmts o maxlen indent (config_sitems registry entries maxlen) 1.
+Definition sitems_text (maxlen indent : nat) (items : list sitem) : string := join_strs nls (map (sitem_text maxlen indent) items).
